@@ -79,6 +79,186 @@ theorem reNumThen_print (c : UInt8) (hc : isDigit c = false) (hc32 : c.toNat ≠
   simp only [Option.bind_eq_bind, Option.bind_some]
   rw [skipSp_sp j _ (Stops_sp32_cons _ hc32), show (c :: r) = [c] ++ r from rfl, stripPrefix_append]; rfl
 
+/-! ### signed numbers (the in-use columns of a record) -/
+theorem intStr_nonneg {i : Int} (h : 0 ≤ i) : intStr i = dec i.natAbs := by
+  unfold intStr; simp [Int.not_lt.2 h]
+
+theorem intStr_neg {i : Int} (h : i < 0) : intStr i = 45 :: dec i.natAbs := by
+  unfold intStr; simp [h]
+
+theorem intStr_digit_or_dash (i : Int) : ∀ b ∈ intStr i, isDigit b = true ∨ b = 45 := by
+  intro b hb
+  unfold intStr at hb
+  split at hb
+  · rcases List.mem_cons.1 hb with h | h
+    · exact Or.inr h
+    · exact Or.inl (dec_isDigit _ b h)
+  · exact Or.inl (dec_isDigit _ b hb)
+
+theorem intStr_cons (i : Int) : ∃ c t, intStr i = c :: t ∧ (isDigit c = true ∨ c = 45) := by
+  cases hq : intStr i with
+  | nil =>
+    exfalso
+    unfold intStr at hq
+    split at hq
+    · cases hq
+    · exact dec_ne_nil _ hq
+  | cons c t => exact ⟨c, t, rfl, intStr_digit_or_dash i c (by simp [hq])⟩
+
+theorem intStr_ne_nil (i : Int) : intStr i ≠ [] := by
+  obtain ⟨c, t, h, _⟩ := intStr_cons i
+  rw [h]; simp
+
+theorem stripDash_dec (n : Nat) (r : Str) : stripPrefix [45] (dec n ++ r) = none := by
+  obtain ⟨c, t, hd, hc⟩ := dec_cons n
+  rw [hd]
+  have : (45 : UInt8) ≠ c := fun e => ne45_of_isDigit hc e.symm
+  simp [stripPrefix, this]
+
+theorem reSDigits_intStr (i : Int) (r : Str) (h : Stops isDigit r) : reSDigits (intStr i ++ r) = some (intStr i, r) := by
+  unfold reSDigits
+  by_cases hn : i < 0
+  · rw [intStr_neg hn]
+    have : stripPrefix [45] (45 :: dec i.natAbs ++ r) = some (dec i.natAbs ++ r) := by simp [stripPrefix]
+    rw [this]
+    simp [reDigits_dec _ _ h]
+  · rw [intStr_nonneg (Int.not_lt.1 hn), stripDash_dec]
+    simp [reDigits_dec _ _ h]
+
+theorem parseI64Z_intStr {i : Int} (h1 : -(two63 : Int) ≤ i) (h2 : i < (two63 : Int)) : parseI64Z (intStr i) = some i := by
+  unfold parseI64Z
+  by_cases hn : i < 0
+  · rw [intStr_neg hn]
+    have : stripPrefix [45] (45 :: dec i.natAbs) = some (dec i.natAbs) := by simp [stripPrefix]
+    rw [this]
+    have e63 : ((two63 : Nat) : Int) = 9223372036854775808 := rfl
+    rw [e63] at h1 h2
+    have hle : i.natAbs ≤ two63 := by show i.natAbs ≤ 9223372036854775808; omega
+    have hv : -(i.natAbs : Int) = i := by omega
+    simp [parseNat_dec, Option.filter, hle, hv]
+  · have h0 : 0 ≤ i := Int.not_lt.1 hn
+    rw [intStr_nonneg h0]
+    have := stripDash_dec i.natAbs []
+    simp only [List.append_nil] at this
+    rw [this]
+    have e63 : ((two63 : Nat) : Int) = 9223372036854775808 := rfl
+    rw [e63] at h1 h2
+    have hlt : i.natAbs < two63 := by show i.natAbs < 9223372036854775808; omega
+    have hv : (i.natAbs : Int) = i := by omega
+    simp [parseI64_dec hlt, hv]
+
+theorem Stops_sp32_intStr (i : Int) (r : Str) : Stops (fun b => b.toNat == 32) (intStr i ++ r) := by
+  obtain ⟨c, t, hd, hc⟩ := intStr_cons i
+  rw [hd]
+  simp only [List.cons_append, Stops_cons, beq_eq_false_iff_ne]
+  rcases hc with hc | hc
+  · simp only [isDigit, decide_eq_true_eq] at hc; omega
+  · subst hc; decide
+
+theorem intStr_reverse_stops (i : Int) : Stops isSpace (intStr i).reverse := by
+  unfold intStr
+  split
+  · rw [show (45 :: dec i.natAbs) = [45] ++ dec i.natAbs from rfl]
+    exact Stops_reverse_append _ _ (dec_ne_nil _) (dec_reverse_stops _)
+  · exact dec_reverse_stops _
+
+theorem parseNatBase0_dec (n : Nat) : parseNatBase0 (dec n) = some n := by
+  rw [← parseNat_dec n]
+  by_cases hn : n = 0
+  · subst hn; decide
+  · obtain ⟨c, r, hq, hc⟩ := dec_head (Nat.pos_of_ne_zero hn)
+    rw [hq]
+    cases r with
+    | nil => rfl
+    | cons c2 r2 => simp [parseNatBase0, hc]
+
+theorem parseI64Base0Z_intStr {i : Int} (h1 : -(two63 : Int) ≤ i) (h2 : i < (two63 : Int)) :
+    parseI64Base0Z (intStr i) = some i := by
+  unfold parseI64Base0Z
+  have e63 : ((two63 : Nat) : Int) = 9223372036854775808 := rfl
+  rw [e63] at h1 h2
+  by_cases hn : i < 0
+  · rw [intStr_neg hn]
+    have : stripPrefix [45] (45 :: dec i.natAbs) = some (dec i.natAbs) := by simp [stripPrefix]
+    rw [this]
+    have hle : i.natAbs ≤ two63 := by show i.natAbs ≤ 9223372036854775808; omega
+    have hv : -(i.natAbs : Int) = i := by omega
+    simp [parseNatBase0_dec, Option.filter, hle, hv]
+  · have h0 : 0 ≤ i := Int.not_lt.1 hn
+    rw [intStr_nonneg h0]
+    have := stripDash_dec i.natAbs []
+    simp only [List.append_nil] at this
+    rw [this]
+    have hlt : i.natAbs < two63 := by show i.natAbs < 9223372036854775808; omega
+    have hv : (i.natAbs : Int) = i := by omega
+    simp [parseI64Base0_dec hlt, hv]
+
+theorem reSNumColon_print (k : Nat) (a : Int) (r : Str) : reSNumColon (sp k ++ (intStr a ++ 58 :: r)) = some (intStr a, r) := by
+  unfold reSNumColon
+  rw [skipSp_sp k _ (Stops_sp32_intStr _ _), reSDigits_intStr a _ (by simp [isDigit_58])]
+  simp only [Option.bind_eq_bind, Option.bind_some]
+  rw [show (58 :: r) = [58] ++ r from rfl, stripPrefix_append]; rfl
+
+theorem reSNumThen_print (c : UInt8) (hc : isDigit c = false) (hc32 : c.toNat ≠ 32) (k j : Nat) (a : Int) (r : Str) :
+    reSNumThen c (sp k ++ (intStr a ++ (sp j ++ c :: r))) = some (intStr a, r) := by
+  unfold reSNumThen
+  rw [skipSp_sp k _ (Stops_sp32_intStr _ _), reSDigits_intStr a _ (Stops_isDigit_sp _ _ _ hc)]
+  simp only [Option.bind_eq_bind, Option.bind_some]
+  rw [skipSp_sp j _ (Stops_sp32_cons _ hc32), show (c :: r) = [c] ++ r from rfl, stripPrefix_append]; rfl
+
+/-- the four numbers of a record without the leading blanks, followed by `rest` -/
+def heapNumsCoreZ (pad : Nat) (a b : Int) (c d : Nat) (rest : Str) : Str :=
+  intStr a ++ (58 :: (sp (pad+1) ++ (intStr b ++ (sp (pad+1) ++ (91 :: (sp pad ++ (dec c ++ (58 :: (sp (pad+1) ++
+    (dec d ++ (sp pad ++ (93 :: rest))))))))))))
+
+theorem heapNumbersZ_core (pad : Nat) (a b : Int) (c d : Nat) (rest : Str) :
+    heapNumbersZ pad a b c d ++ rest = sp pad ++ heapNumsCoreZ pad a b c d rest := by
+  simp [heapNumbersZ, heapNumsCoreZ, List.append_assoc]
+
+theorem heapNumsCoreZ_append (pad : Nat) (a b : Int) (c d : Nat) (x y : Str) :
+    heapNumsCoreZ pad a b c d (x ++ y) = heapNumsCoreZ pad a b c d x ++ y := by
+  simp [heapNumsCoreZ, List.append_assoc]
+
+theorem reFourNumbersZ_core (k pad : Nat) (a b : Int) (c d : Nat) (rest : Str) :
+    reFourNumbersZ (sp k ++ heapNumsCoreZ pad a b c d rest) = some (intStr a, intStr b, dec c, dec d, rest) := by
+  unfold reFourNumbersZ heapNumsCoreZ
+  rw [reSNumColon_print]
+  simp only [Option.bind_eq_bind, Option.bind_some]
+  rw [reSNumThen_print 91 (by decide) (by decide)]
+  simp only [Option.bind_some]
+  rw [reNumColon_print]
+  simp only [Option.bind_some]
+  rw [reNumThen_print 93 (by decide) (by decide)]
+  rfl
+
+theorem heapNumsCoreZ_bytes (pad : Nat) (a b : Int) (c d : Nat) :
+    ∀ x ∈ heapNumsCoreZ pad a b c d [], isDigit x = true ∨ x = 45 ∨ x = 32 ∨ x = 58 ∨ x = 91 ∨ x = 93 := by
+  intro x hx
+  have hI : ∀ i : Int, x ∈ intStr i → (isDigit x = true ∨ x = 45 ∨ x = 32 ∨ x = 58 ∨ x = 91 ∨ x = 93) := by
+    intro i h
+    rcases intStr_digit_or_dash i x h with h' | h'
+    · exact Or.inl h'
+    · exact Or.inr (Or.inl h')
+  have hD : ∀ n : Nat, x ∈ dec n → (isDigit x = true ∨ x = 45 ∨ x = 32 ∨ x = 58 ∨ x = 91 ∨ x = 93) :=
+    fun n h => Or.inl (dec_isDigit n x h)
+  have hS : ∀ n : Nat, x ∈ sp n → (isDigit x = true ∨ x = 45 ∨ x = 32 ∨ x = 58 ∨ x = 91 ∨ x = 93) := by
+    intro n h; simp only [sp, List.mem_replicate] at h; rw [h.2]; decide
+  simp only [heapNumsCoreZ, List.mem_append, List.mem_cons, List.not_mem_nil, or_false] at hx
+  rcases hx with h | h | h | h | h | h | h | h | h | h | h | h | h
+  · exact hI _ h
+  · subst h; decide
+  · exact hS _ h
+  · exact hI _ h
+  · exact hS _ h
+  · subst h; decide
+  · exact hS _ h
+  · exact hD _ h
+  · subst h; decide
+  · exact hS _ h
+  · exact hD _ h
+  · exact hS _ h
+  · subst h; decide
+
 /-- the four numbers without the leading blanks, followed by `rest` -/
 def heapNumsCore (pad a b c d : Nat) (rest : Str) : Str :=
   dec a ++ (58 :: (sp (pad+1) ++ (dec b ++ (sp (pad+1) ++ (91 :: (sp pad ++ (dec c ++ (58 :: (sp (pad+1) ++
@@ -339,39 +519,36 @@ theorem heapHeader_dispatch (d : HeapDoc) (hr : d.rate.all (· < two63) = true) 
 /-! ### records -/
 /-- a record line without its indentation -/
 def HeapRec.core (pad w : Nat) (r : HeapRec) : Str :=
-  heapNumsCore pad r.inuseN r.inuseB r.allocN r.allocB (asc " @" ++ printAddrs w r.addrs)
+  heapNumsCoreZ pad r.inuseN r.inuseB r.allocN r.allocB (asc " @" ++ printAddrs w r.addrs)
 
 theorem HeapRec.print_eq (pad w : Nat) (r : HeapRec) : r.print pad w = sp (r.indent + pad) ++ r.core pad w := by
   unfold HeapRec.print HeapRec.core
-  rw [List.append_assoc, List.append_assoc, heapNumbers_core, sp_add]
+  rw [List.append_assoc, List.append_assoc, heapNumbersZ_core, sp_add]
 
-theorem heapNumsCore_bytes (pad a b c d : Nat) :
-    ∀ x ∈ heapNumsCore pad a b c d [], isDigit x = true ∨ x = 32 ∨ x = 58 ∨ x = 91 ∨ x = 93 := by
-  intro x hx
-  apply heapNumbers_bytes pad a b c d x
-  have := heapNumbers_core pad a b c d []
-  simp only [List.append_nil] at this
-  rw [this]; simp [hx]
-
-theorem HeapRec.core_cons (pad w : Nat) (r : HeapRec) : ∃ c t, r.core pad w = c :: t ∧ isDigit c = true := by
-  obtain ⟨c, t, hd, hc⟩ := dec_cons r.inuseN
-  unfold HeapRec.core heapNumsCore
+theorem HeapRec.core_cons (pad w : Nat) (r : HeapRec) : ∃ c t, r.core pad w = c :: t ∧ (isDigit c = true ∨ c = 45) := by
+  obtain ⟨c, t, hd, hc⟩ := intStr_cons r.inuseN
+  unfold HeapRec.core heapNumsCoreZ
   rw [hd]
   exact ⟨c, _, rfl, hc⟩
 
+theorem head_not_space {c : UInt8} (hc : isDigit c = true ∨ c = 45) : isSpace c = false ∧ c.toNat ≠ 35 := by
+  rcases hc with hc | hc
+  · exact ⟨isSpace_false_of_isDigit hc, ne35_of_isDigit hc⟩
+  · subst hc; exact ⟨by decide, by decide⟩
+
 theorem HeapRec.core_reverse_stops (pad w : Nat) (r : HeapRec) : Stops isSpace (r.core pad w).reverse := by
   unfold HeapRec.core
-  rw [heapNumsCore_append]
+  rw [heapNumsCoreZ_append]
   apply append_printAddrs_reverse_stops
-  · rw [show heapNumsCore pad r.inuseN r.inuseB r.allocN r.allocB (asc " @")
-          = heapNumsCore pad r.inuseN r.inuseB r.allocN r.allocB [] ++ asc " @" by rw [← heapNumsCore_append]; rfl]
+  · rw [show heapNumsCoreZ pad r.inuseN r.inuseB r.allocN r.allocB (asc " @")
+          = heapNumsCoreZ pad r.inuseN r.inuseB r.allocN r.allocB [] ++ asc " @" by rw [← heapNumsCoreZ_append]; rfl]
     exact Stops_reverse_append _ _ (by decide) (Stops_of_stopsB (by decide))
-  · simp [heapNumsCore, dec_ne_nil]
+  · simp [heapNumsCoreZ, intStr_ne_nil]
 
 theorem HeapRec.trim (pad w : Nat) (r : HeapRec) : trimSpace (r.print pad w) = r.core pad w := by
   rw [HeapRec.print_eq]
   obtain ⟨c, t, hd, hc⟩ := r.core_cons pad w
-  exact trimSpace_replicate _ _ (by rw [hd]; simpa using isSpace_false_of_isDigit hc) (r.core_reverse_stops pad w)
+  exact trimSpace_replicate _ _ (by rw [hd]; simpa using (head_not_space hc).1) (r.core_reverse_stops pad w)
 
 theorem ne77_of_isDigit {b : UInt8} (h : isDigit b = true) : b ≠ 77 := by
   intro e; subst e; revert h; decide
@@ -379,13 +556,13 @@ theorem ne77_of_isDigit {b : UInt8} (h : isDigit b = true) : b ≠ 77 := by
 theorem HeapRec.core_not_sentinel (pad w : Nat) (r : HeapRec) : isMemoryMapSentinel (r.core pad w) = false := by
   apply not_sentinel_of_no_M
   unfold HeapRec.core
-  rw [heapNumsCore_append,
-    show heapNumsCore pad r.inuseN r.inuseB r.allocN r.allocB (asc " @")
-      = heapNumsCore pad r.inuseN r.inuseB r.allocN r.allocB [] ++ asc " @" by rw [← heapNumsCore_append]; rfl]
+  rw [heapNumsCoreZ_append,
+    show heapNumsCoreZ pad r.inuseN r.inuseB r.allocN r.allocB (asc " @")
+      = heapNumsCoreZ pad r.inuseN r.inuseB r.allocN r.allocB [] ++ asc " @" by rw [← heapNumsCoreZ_append]; rfl]
   intro hm
   simp only [List.mem_append] at hm
   rcases hm with (hm | hm) | hm
-  · rcases heapNumsCore_bytes _ _ _ _ _ 77 hm with h | h | h | h | h
+  · rcases heapNumsCoreZ_bytes _ _ _ _ _ 77 hm with h | h | h | h | h | h
     · exact ne77_of_isDigit h rfl
     all_goals (revert h; decide)
   · revert hm; decide
@@ -399,9 +576,9 @@ theorem takeWhile_addrText (w : Nat) (as : List Nat) :
   simpa using this
 
 theorem matchHeapSampleAt_core (pad w : Nat) (r : HeapRec) :
-    matchHeapSampleAt (r.core pad w) = some (dec r.inuseN, dec r.inuseB, dec r.allocN, dec r.allocB, printAddrs w r.addrs) := by
+    matchHeapSampleAt (r.core pad w) = some (intStr r.inuseN, intStr r.inuseB, dec r.allocN, dec r.allocB, printAddrs w r.addrs) := by
   unfold matchHeapSampleAt HeapRec.core
-  have := reFourNumbers_core 0 pad r.inuseN r.inuseB r.allocN r.allocB (asc " @" ++ printAddrs w r.addrs)
+  have := reFourNumbersZ_core 0 pad r.inuseN r.inuseB r.allocN r.allocB (asc " @" ++ printAddrs w r.addrs)
   simp only [sp, List.replicate_zero, List.nil_append] at this
   rw [this]
   simp only [Option.bind_eq_bind, Option.bind_some, stripPrefix_append, takeWhile_addrText]
@@ -416,7 +593,7 @@ theorem parseHeapSample_core (scale : ScaleFn) (pad w : Nat) (r : HeapRec) (rate
   obtain ⟨⟨⟨⟨⟨⟨⟨_, h1⟩, h2⟩, h3⟩, h4⟩, h5⟩, h6⟩, h7⟩ := hr
   unfold parseHeapSample
   rw [searchRe_of_some _ _ _ (matchHeapSampleAt_core pad w r)]
-  simp only [parseI64_dec h1, parseI64_dec h2, parseI64_dec h3, parseI64_dec h4,
+  simp only [parseI64Z_intStr h1.1 h1.2, parseI64Z_intStr h2.1 h2.2, parseI64_dec h3, parseI64_dec h4,
     parseHexAddresses_printAddrs w r.addrs h7]
   have c1 : (hasAlloc && r.allocN == 0 && r.allocB != 0) = false := by
     cases hasAlloc with
@@ -462,7 +639,7 @@ theorem heapLoop_rec (scale : ScaleFn) (rate : Nat) (v2 hasAlloc : Bool) (pad w 
         (heapSample scale hasAlloc v2 rate r.inuseN r.inuseB r.allocN r.allocB r.addrs :: acc) := by
   obtain ⟨c, t, hd, hc⟩ := r.core_cons pad w
   have h1 : isSpaceOrComment (r.core pad w) = false := by
-    rw [hd]; exact isSpaceOrComment_head' _ (isSpace_false_of_isDigit hc) (ne35_of_isDigit hc)
+    rw [hd]; exact isSpaceOrComment_head' _ (head_not_space hc).1 (head_not_space hc).2
   rw [heapLoop]
   simp only [HeapRec.trim, h1, r.core_not_sentinel pad w, Bool.false_eq_true, if_false,
     parseHeapSample_core scale pad w r rate v2 hasAlloc hr]
@@ -497,6 +674,22 @@ theorem heapLoop_tail (scale : ScaleFn) (rate : Nat) (v2 hasAlloc : Bool) (senti
 theorem LineOK_heapNumbers (pad a b c d : Nat) : LineOK (heapNumbers pad a b c d) := by
   intro x hx
   rcases heapNumbers_bytes pad a b c d x hx with h | h | h | h | h
+  · simp only [isDigit, decide_eq_true_eq] at h; omega
+  all_goals (subst h; decide)
+
+theorem LineOK_intStr (i : Int) : LineOK (intStr i) := by
+  intro x hx
+  rcases intStr_digit_or_dash i x hx with h | h
+  · simp only [isDigit, decide_eq_true_eq] at h; omega
+  · subst h; decide
+
+theorem LineOK_heapNumbersZ (pad : Nat) (a b : Int) (c d : Nat) : LineOK (heapNumbersZ pad a b c d) := by
+  have e := heapNumbersZ_core pad a b c d []
+  simp only [List.append_nil] at e
+  rw [e]
+  apply LineOK_append (LineOK_sp _)
+  intro x hx
+  rcases heapNumsCoreZ_bytes pad a b c d x hx with h | h | h | h | h | h
   · simp only [isDigit, decide_eq_true_eq] at h; omega
   all_goals (subst h; decide)
 
@@ -542,7 +735,7 @@ theorem parseHeap_printHeap (scale : ScaleFn) (d : HeapDoc) (h : d.wf = true) :
         have hlit : LineOK (asc " @") := by decide
         simp only [HeapRec.print]
         lineok
-        exact ⟨LineOK_heapNumbers _ _ _ _ _, hlit⟩
+        exact ⟨LineOK_heapNumbersZ _ _ _ _ _, hlit⟩
     · exact LineOK_fillers (List.all_eq_true.2 hpost) l hl
     · exact LineOK_tailLines hsentOK hmap' l hl
   unfold parseHeap
